@@ -101,6 +101,14 @@ _orig_sub2 = lib.subscript_hook
 
 def _subscript_iloc(ex: Exec, base: SV, key: SV):
     if base.ty.kind == "raw" and isinstance(base.aux, tuple) and base.aux[0] == "frame-iloc":
+        src = getattr(ex, "_iloc_src", None)
+        if src == "1:, :":
+            # frame.iloc[1:, :] - the frame without its first row: a fresh frame that keeps the last
+            # index label (frames recorded by the simulator have at least two rows: assumed)
+            lib.used(ex, "frame.iloc[1:, :]: a fresh frame with the same last index label (at least two rows)")
+            fid = ex.new_obj("pd.DataFrame")
+            ex.assume(last_time(fid) == last_time(ex.ref_id(base.aux[1])))
+            return SV(S.mk_ref(fid), T.obj("pd.DataFrame"))
         lib.used(ex, "frame.iloc[...]: a fresh Series / frame object (contents not modelled)")
         return SV(S.mk_ref(ex.new_obj("pd.Series")), T.obj("pd.Series"))
     return _orig_sub2(ex, base, key)
